@@ -434,7 +434,10 @@ class MultiCrossBlockRepeat(Block):
             if not isinstance(factor.name, HiddenName):
                 factor_test = True
                 sustain_count = self.sustain_count(factor)
-                for i in range(0, len(sample_objects[factor]), sustain_count):
+                # A sustained within-trial factor is derived in every trial (its sources need not
+                # be sustained); a sustained complex window is derived once per group of trials
+                step = sustain_count if factor.has_complex_window else 1
+                for i in range(0, len(sample_objects[factor]), step):
                     factor_test &= factor.test_trial(i, sample_objects, sustain_count)
                 if not factor_test:
                     res.append(factor.name)
